@@ -32,7 +32,11 @@ EXPLANATION = (
     'regex; R3 every statement that discards whitespace content (fresh value, `= None`, popped comma, replaced argument list) is '
     'unreachable when the discarded owner holds a comment, or the content was moved/re-appended first, or a checked justification '
     'applies; R4 in run() the check-mode status is set iff the text read differs from the text that would be written. '
-    'Does NOT decide idempotence, the five-round fixpoint, line-splitting layout, or newline translation of --check-only.')
+    'Guards are decided as branch atoms in the world a counter-hypothesis describes (a representative of the input class is used only '
+    'to give the atoms of a guard a truth value; no statement sequence or method body is interpreted, values computed by the code are '
+    'never propagated). Does NOT decide: idempotence, the five-round fixpoint, line-splitting layout, newline translation of '
+    '--check-only, and the f-string test for a triple-quoted f-string that is simplified in the same visit (its value is re-derived by '
+    'escape() before the test).')
 ASSUMPTIONS = [
     'the parser attaches trivia (comments, blanks) only to token-level nodes; composite nodes (ArrayNode, ArgumentNode) receive '
     'whitespace only through the formatter own move_whitespaces, so replacing a composite drops only what its symbol tokens own',
@@ -41,7 +45,9 @@ ASSUMPTIONS = [
     'len(ArgumentNode.colons) == len(ArgumentNode.kwargs) (asserted by FullAstVisitor.visit_ArgumentNode)',
     'str methods, len, any/all and the re module behave as documented',
 ]
-TECHNIQUE = 'who-may-write classification by resolved node types + hypothesis-driven path feasibility (3-valued guard evaluation) + regex-language facts'
+TECHNIQUE = ('who-may-write classification by node types resolved from annotations; path enumeration with guard atoms decided three-valued in '
+             'counter-hypothesis worlds (truth atoms, canonical trailing-comma atom, declared node classes); CFG must-pass; decision table '
+             '(sa.tables) for check mode; regex-language facts (sa.rx) for the literal hazards')
 
 COMMENT_SAMPLES = ['  # c\n', '# c\n    ', '\n# c\n']
 LAYOUT_ATTRS = {'whitespaces', 'pre_whitespaces', 'condition_level'}
@@ -236,12 +242,39 @@ def _canon_at(fn: ast.FunctionDef, site: ast.stmt, e: ast.AST) -> T.Set[str]:
     return {norm(subst(e, r.binds)) for r in reach(fn, site, Hyp())}
 
 
+def _trailing_atoms(x: str, present: bool) -> T.Callable[[ast.AST], T.Any]:
+    """Truth of the canonical atoms about the trailing comma of argument list x in the world `present`:
+    T := len(x.commas) == len(x.arguments) + len(x.kwargs) (either spelling/order, != negated); in the world where a
+    trailing comma is present the list of commas is non-empty as well.  No numbers are involved."""
+    from .c16_sym import UNKNOWN
+    lc = f'len({x}.commas)'
+    sums = {f'len({x}.arguments) + len({x}.kwargs)', f'len({x}.kwargs) + len({x}.arguments)'}
+
+    def atoms(e: ast.AST) -> T.Any:
+        if isinstance(e, ast.Compare) and len(e.ops) == 1:
+            a, b = norm(e.left), norm(e.comparators[0])
+            op = e.ops[0]
+            if (a == lc and b in sums) or (b == lc and a in sums):
+                if isinstance(op, ast.Eq):
+                    return present
+                if isinstance(op, ast.NotEq):
+                    return not present
+            if present and ((a == lc and b == '0' and isinstance(op, (ast.Gt, ast.NotEq))) or (b == lc and a == '0' and isinstance(op, (ast.Lt, ast.NotEq)))):
+                return True
+        if present and norm(e) in (f'{x}.commas', f'bool({x}.commas)', lc):
+            return True
+        return UNKNOWN
+    return atoms
+
+
 def trailing_hyps(x: str, present: bool) -> T.List[Hyp]:
+    """Worlds over the truth atoms x.arguments / x.kwargs / x.commas and the trailing-comma atom."""
     if present:
-        return [Hyp({f'{x}.commas': ['c', 'c'], f'{x}.arguments': ['a', 'b'], f'{x}.kwargs': {}}, label='a trailing comma is present (2 positional, 2 commas)'),
-                Hyp({f'{x}.commas': ['c', 'c'], f'{x}.arguments': ['a'], f'{x}.kwargs': {'k': 'v'}}, label='a trailing comma is present (1 positional + 1 keyword, 2 commas)')]
-    return [Hyp({f'{x}.commas': ['c'], f'{x}.arguments': ['a', 'b'], f'{x}.kwargs': {}}, label='no trailing comma (2 arguments, 1 comma)'),
-            Hyp({f'{x}.commas': [], f'{x}.arguments': ['a'], f'{x}.kwargs': {}}, label='no comma at all')]
+        return [Hyp({f'{x}.arguments': True, f'{x}.kwargs': False}, label='a trailing comma is present (positional arguments only)', atoms=_trailing_atoms(x, True)),
+                Hyp({f'{x}.arguments': True, f'{x}.kwargs': True}, label='a trailing comma is present (positional and keyword arguments)', atoms=_trailing_atoms(x, True)),
+                Hyp({f'{x}.arguments': False, f'{x}.kwargs': True}, label='a trailing comma is present (keyword arguments only)', atoms=_trailing_atoms(x, True))]
+    return [Hyp({f'{x}.commas': True}, label='commas only between arguments (no trailing comma)', atoms=_trailing_atoms(x, False)),
+            Hyp({f'{x}.commas': False}, label='no comma at all', atoms=_trailing_atoms(x, False))]
 
 
 def r1(ctx: RuleCtx) -> None:
@@ -287,11 +320,11 @@ def r1(ctx: RuleCtx) -> None:
             first = f'{x}.args.arguments[0]'
             arr = _type_hook(model, {first: 'ArrayNode'})
             hyps = [(Hyp({f'{x}.func_name.value': 'executable'}), 'the function is not files()', arr),
-                    (Hyp({f'{x}.args.arguments': ['a', 'b']}), 'there are two positional arguments', arr),
-                    (Hyp({f'{x}.args.arguments': ['a'], f'{x}.args.kwargs': {'k': 'v'}}), 'a keyword argument is present', arr)]
+                    (Hyp({f'len({x}.args.arguments)': 2}), 'there are two positional arguments', arr),
+                    (Hyp({f'len({x}.args.arguments)': 1, f'{x}.args.kwargs': True}), 'a keyword argument is present', arr)]
             for other in ('DictNode', 'StringNode', 'IdNode', 'FunctionNode', 'MethodNode', 'ArithmeticNode'):
                 if other in model.classes:
-                    hyps.append((Hyp({f'{x}.func_name.value': 'files', f'{x}.args.arguments': ['a'], f'{x}.args.kwargs': {}}),
+                    hyps.append((Hyp({f'{x}.func_name.value': 'files', f'len({x}.args.arguments)': 1, f'{x}.args.kwargs': False}),
                                  f'the single argument is a {other}, not an array literal', _type_hook(model, {first: other})))
             for h, what, hook in hyps:
                 _must_be_unreachable(ctx, p, qn, fn, site, h, what, norm(site), 'argument list replaced outside the documented files([...]) flattening', hook)
@@ -474,30 +507,8 @@ def _fstring_regex(ctx: RuleCtx) -> str:
     raise Undecided('InterpreterBase.evaluate_fstring: substitution regex not found')
 
 
-def _escape_model(ctx: RuleCtx) -> T.Callable[[ast.Call, T.Any], T.Any]:
-    """StringNode.escape() is ESCAPE_SEQUENCE_SINGLE_RE.sub(.., self.raw_value): the identity on a raw value that holds no
-    first character of an escape alternative.  Checked against the method body before it is used."""
-    from .c16_sym import UNKNOWN
-    mod = ctx.repo.module(MP)
-    fn = mod.func('StringNode.escape')
-    rets = [n for n in ast.walk(fn) if isinstance(n, ast.Return)]
-    ok = len(rets) == 1 and isinstance(rets[0].value, ast.Call) and norm(rets[0].value.func) == 'ESCAPE_SEQUENCE_SINGLE_RE.sub' \
-        and len(rets[0].value.args) == 2 and norm(rets[0].value.args[1]) == 'self.raw_value'
-    esc = fold_expr(ctx.repo, mod, mod.assign_value('ESCAPE_SEQUENCE_SINGLE_RE'))
-    firsts = _first_literals(rx.parse(esc.pattern, esc.flags)) if isinstance(esc, Regex) else set()
-
-    def calls(c: ast.Call, ev: T.Any) -> T.Any:
-        if ok and firsts and isinstance(c.func, ast.Attribute) and c.func.attr == 'escape' and not c.args and not c.keywords:
-            raw = ev.ev(ast.Attribute(value=c.func.value, attr='raw_value', ctx=ast.Load()))
-            if isinstance(raw, str) and not any(f in raw for f in firsts):
-                return raw
-        return UNKNOWN
-    return calls
-
-
 def r2(ctx: RuleCtx) -> None:
     model = NodeModel(ctx.repo)
-    esc_model = _escape_model(ctx)
     hz = _plain_hazards(ctx)
     chars = sorted({h.char for h in hz})
     ctx.note(f'hazards of the plain literal form derived from lexer/parser: {[(h.char, h.witness) for h in hz]}')
@@ -533,7 +544,7 @@ def r2(ctx: RuleCtx) -> None:
                     for c in chars:
                         bad: T.List[T.Tuple[Hazard, Reach]] = []
                         for h in [h for h in hz if h.char == c]:
-                            rs = reach(fn, w.stmt, Hyp({f'{x}.value': h.witness, f'{x}.raw_value': h.witness, f'{x}.is_multiline': True}), calls=esc_model)
+                            rs = reach(fn, w.stmt, Hyp({f'{x}.value': h.witness, f'{x}.is_multiline': True}))
                             unk = [u for r in rs for u in r.notes.get('unknown', [])]
                             if unk:
                                 raise Undecided(f'{qn}: the guard of the literal rewrite uses a test the evaluator does not understand: {unk[0]}')
@@ -548,11 +559,23 @@ def r2(ctx: RuleCtx) -> None:
                         else:
                             ctx.ok(f'{qn}: multiline->plain rewrite unreachable for a value containing {c!r} ({len([h for h in hz if h.char == c])} witness(es))')
                     # a harmless value must still be simplified (the rule is not satisfied by deleting the feature)
-                    if not reach(fn, w.stmt, Hyp({f'{x}.value': 'abc', f'{x}.raw_value': 'abc', f'{x}.is_multiline': True, 'self.config.simplify_string_literals': True})):
+                    if not reach(fn, w.stmt, Hyp({f'{x}.value': 'abc', f'{x}.is_multiline': True, 'self.config.simplify_string_literals': True})):
                         ctx.note(f'{qn}: the rewrite is not reachable for the harmless value abc')
                 else:
                     n_fs += 1
-                    rs = reach(fn, w.stmt, Hyp({f'{x}.value': 'a' + fw + 'b', f'{x}.raw_value': 'a' + fw + 'b', f'{x}.is_fstring': True}), calls=esc_model)
+                    # input classes: a plain f-string, and a triple-quoted one that stays triple-quoted (it also holds a
+                    # hazard character).  A triple-quoted f-string simplified in the same visit has its value re-derived
+                    # by escape() before the test: that class is not decided.
+                    vkey = f'{x}.value'
+
+                    def same_value(ev: T.Any, sub: T.Callable[[ast.AST], ast.AST], notes: T.Dict[str, T.Any], vkey: str = vkey) -> T.Optional[str]:
+                        st = ev.node
+                        if ev.kind == 'stmt' and isinstance(st, ast.Assign) and any(norm(sub(t)) == vkey for t in st.targets):
+                            return 'skip'      # the value tested afterwards is no longer the hypothesised one: not decided
+                        return None
+                    rs = reach(fn, w.stmt, Hyp({vkey: 'a' + fw + 'b', f'{x}.is_fstring': True, f'{x}.is_multiline': False}), observer=same_value)
+                    for c in [''] + chars:
+                        rs += reach(fn, w.stmt, Hyp({vkey: 'a' + fw + c + 'b', f'{x}.is_fstring': True, f'{x}.is_multiline': True}), observer=same_value)
                     unk = [u for r in rs for u in r.notes.get('unknown', [])]
                     if unk:
                         raise Undecided(f'{qn}: the guard of the f-string rewrite uses a test the evaluator does not understand: {unk[0]}')
@@ -947,7 +970,7 @@ def _judge_site(ctx: RuleCtx, p: Pass, qn: str, fn: ast.FunctionDef, s: Site, w:
     stable: T.Dict[str, T.Any] = {}
     m = re.match(r'^(.*)\.colons\[ANY\]\.whitespaces$', parent)
     if m and colons_inv:
-        stable[m.group(1) + '.kwargs'] = {'k': 'v'}
+        stable[m.group(1) + '.kwargs'] = True
     for sample in COMMENT_SAMPLES:
         hyp = Hyp(stable, {parent: PRESENT, loc: sample})
         rs = reach(fn, s.stmt, hyp, observer=observer)
